@@ -563,8 +563,9 @@ func runSession(o *rec, p *sessPlan) {
 	}
 	atomic.StoreInt32(&dead, 1)
 	if failed || timedOut {
-		A.mc.Stop()
-		B.mc.Stop()
+		stopConns(o, A.mc, B.mc)
+		c1.Close()
+		c2.Close()
 	}
 	if !sdone {
 		<-sendersDoneOrNil(sendersDone)
@@ -648,12 +649,31 @@ func runSession(o *rec, p *sessPlan) {
 	}
 	close(stopObs)
 	obsWg.Wait()
-	A.mc.Stop()
-	B.mc.Stop()
+	stopConns(o, A.mc, B.mc)
 	c1.Close()
 	c2.Close()
 	if p.ID < 2 {
 		o.Sample(map[string]interface{}{"monitor": "c", "session": p})
+	}
+}
+
+// stopConns stops the connections without trusting Stop() to return: a tick
+// of chStatsTimer/pingTimer that nobody consumes any more blocks
+// RepeatTimer.Stop() forever (liveness of Stop is not C20's subject; the hang
+// is counted and reported, the goroutine is abandoned).
+func stopConns(o *rec, ms ...*p2p.MConnection) {
+	done := make(chan struct{}, len(ms))
+	for _, m := range ms {
+		go func(m *p2p.MConnection) { m.Stop(); done <- struct{}{} }(m)
+	}
+	wd := time.After(3 * time.Second)
+	for range ms {
+		select {
+		case <-done:
+		case <-wd:
+			o.Count("c_stop_did_not_return", 1)
+			return
+		}
 	}
 }
 
